@@ -528,6 +528,7 @@ var c04Models = map[string]modelFn{
 		return mOne(mEnd(append(append([]int(nil), vals...), avals...), aterm, ahas))
 	},
 	// ---------------------------------------------------------------- sinks
+	"ToSliceKeep":    mOnComplete(func(p []int, vals []int) ([]int, N) { return vals, mC }),
 	"ToSliceFlatten": mOnComplete(func(p []int, vals []int) ([]int, N) { return vals, mC }),
 }
 
